@@ -19,7 +19,13 @@ def h_fault(k0: int, k1: int, k2: int, k3: int, k4: int, k5: int, k6: int, k7: i
     d = mkdata([k0, k1, k2, k3, k4, k5, k6, k7], [n0, n1, n2, 0], [p0, p1, p2], [b0, b1, b2])
     o = Opts(fl=[P("fl", "agen")] * 4, ffl=P("ffl", "def"))
     fault = make_fault(y)
-    Wa, Ws = World("a", fault_at=x, fault=fault), World("s", fault_at=x, fault=fault)
+    fkind = None
+    if P("Z", (0, 0))[1] > 0:
+        # the k-th use *of one entity* (source pulls / end-of-source check / the callable)
+        for i, nm in enumerate((None, "pull", "end", "call")):
+            if z == i:
+                fkind = nm
+    Wa, Ws = World("a", fault_at=x, fault=fault, fault_kind=fkind), World("s", fault_at=x, fault=fault, fault_kind=fkind)
     D = Driver(Wa, sync_only=True)
     try:
         out_a, end_a, _h = run_async(op, kind, Wa, D, d, o)
@@ -36,6 +42,11 @@ def h_fault(k0: int, k1: int, k2: int, k3: int, k4: int, k5: int, k6: int, k7: i
         # that very object, nothing is used afterwards, and without a fault results agree.
         if Wa.faulted and end_a is not fault:
             ok = fail("%s:fault-not-surfaced-unchanged" % name, (end_a, fault)) and ok
+        if fkind is not None and Ws.faulted and end_s is fault and not Wa.faulted:
+            # the stdlib used that entity a k-th time and failed there; asyncstdlib did not
+            ok = fail("%s:kth-use-of-%s-never-happened" % (name, fkind), (Wa.log, Ws.log)) and ok
+        if fkind is not None and Wa.faulted and not Ws.faulted:
+            ok = fail("%s:extra-use-of-%s" % (name, fkind), (Wa.log, Ws.log)) and ok
         if not Wa.faulted and not Ws.faulted and not endings_match(end_a, end_s):
             ok = fail("%s:ending-differs" % name, (end_a, end_s)) and ok
         for v in Wa.viol:
@@ -105,6 +116,8 @@ def jobs(tier):
             add(op, 1, N1, 2 * N1 + 2, fl=fl, ffl=ffl, **kw)
         for op in AGGS1:
             add(op, 1, N1, 2 * N1 + 2, fl=fl, ffl=ffl)
+            if op not in ("all", "any"):
+                add(op, 1, N1, N1 + 1, fl=fl, ffl=ffl, Z=(1, 3))
         for op in ("zip", "zip_longest", "map", "chain", "chain_from"):
             add(op, 2, 2, 8, fl=fl, ffl=ffl)
         for b0 in (False, True):
@@ -119,7 +132,7 @@ def jobs(tier):
 
 
 BOUNDS = {
-    "quick": "one fault at symbolic position k=1..2N+2 over the merged use sequence (pulls, end-of-source checks, callable invocations); 7 exception kinds (Exception subclass, AttributeError, BaseException subclass, TypeError, ValueError, KeyError, RuntimeError) with N<=1 item per source, the first three kinds with N<=2; S<=2; flavours (async generator, def) / (class-based async iterator, async def) / (sync iterator, def)",
+    "quick": "(consuming aggregations additionally: the k-th use of one entity - source pulls, end-of-source check, callable - fails) one fault at symbolic position k=1..2N+2 over the merged use sequence (pulls, end-of-source checks, callable invocations); 7 exception kinds (Exception subclass, AttributeError, BaseException subclass, TypeError, ValueError, KeyError, RuntimeError) with N<=1 item per source, the first three kinds with N<=2; S<=2; flavours (async generator, def) / (class-based async iterator, async def) / (sync iterator, def)",
     "thorough": "N<=3, S<=3, additionally __getitem__ sequences, partial(async def) and callable objects",
 }
 OUTSIDE = ["faults of type StopIteration/StopAsyncIteration (generator semantics turn them into RuntimeError in both worlds differently)", "more than one fault", "lengths above the bound"]
